@@ -635,7 +635,10 @@ func runRetry(rep *kit.Report, text string, scripts []script, bl int, chunked, a
 		fmt.Fprintf(os.Stderr, "DEBUG %d execs depth %d: %q %v body=%d chunked=%v\n", st.Executions, st.MaxDepth, text, scNames, bl, chunked)
 	}
 	if st.Capped {
-		rep.Capped("deadline reached inside a retry exploration")
+		rep.Capped(fmt.Sprintf("deadline reached inside a retry exploration (preemption bound %d)", bound))
+		rep.AddInt("retry_scenarios_cut_short", 1)
+	} else {
+		rep.AddInt("retry_scenarios_completed", 1)
 	}
 	states.Add(int64(len(seen)))
 	rep.AddInt("schedules", st.Executions)
